@@ -94,6 +94,7 @@ var (
 	ErrUnsupportedParameter                   = errors.New("unsupported parameter")
 	ErrDuplicatedParameters                   = errors.New("duplicated parameters")
 	ErrLimitedIndexCreation                   = errors.New("unique index creation is only supported on empty tables")
+	ErrUniqueIndexNotYetUsable                = errors.New("rows can not be written through a unique index created by the same transaction")
 	ErrTooManyRows                            = errors.New("too many rows")
 	ErrAlreadyClosed                          = store.ErrAlreadyClosed
 	ErrAmbiguousSelector                      = errors.New("ambiguous selector")
